@@ -237,6 +237,62 @@ roundtrip_len_harness!(c09_roundtrip_len_8, 8, false, false);
 roundtrip_len_harness!(c09_roundtrip_len_7_dsap, 7, true, false);
 roundtrip_len_harness!(c09_roundtrip_len_9, 9, false, false);
 
+/// Full symbolic payload content at a concrete (large) length: closes the gap between the
+/// content harnesses (<= 64 bytes) and the boundary-length harnesses (concrete content).
+fn roundtrip_content_len<const L: usize, const D: bool, const S: bool>() {
+    let da: u8 = kani::any();
+    let sa: u8 = kani::any();
+    kani::assume(da <= 127 && sa <= 127);
+    let h = DataTelegramHeader {
+        da,
+        sa,
+        dsap: if D { Some(kani::any()) } else { None },
+        ssap: if S { Some(kani::any()) } else { None },
+        fc: any_function_code(),
+    };
+    let content: [u8; L] = kani::any();
+    let mut buf = [0u8; 256];
+    let res = TelegramTx::new(&mut buf).send_data_telegram(h.clone(), L, |b| b.copy_from_slice(&content));
+    let mut expect = [0u8; 256];
+    let elen = ref_encode(&h, L, |i| content[i], &mut expect);
+    vassert!(res.bytes_sent() == elen && h.telegram_len(L) == elen, "C09/len: bytes_sent and telegram_len equal the frame length");
+    let mut i = 0;
+    while i < elen {
+        vassert!(buf[i] == expect[i], "C09/wire: serialised bytes equal the reference frame");
+        i += 1;
+    }
+    match Telegram::deserialize(&buf[..elen]) {
+        Some(Ok((Telegram::Data(t), n))) => {
+            vassert!(n == elen && t.h == h && t.pdu.len() == L, "C09/roundtrip: decoded header and payload length identical, exactly the frame consumed");
+            let mut i = 0;
+            while i < L {
+                vassert!(t.pdu[i] == content[i], "C09/roundtrip: decoded payload identical");
+                i += 1;
+            }
+            kani::cover!(true, "cover: frame round-trips");
+        }
+        _ => vassert!(false, "C09/roundtrip: an encoded data telegram decodes as a data telegram"),
+    }
+}
+
+#[kani::proof]
+#[kani::unwind(258)]
+fn c09_roundtrip_content_len_246_t() {
+    roundtrip_content_len::<246, false, false>();
+}
+
+#[kani::proof]
+#[kani::unwind(258)]
+fn c09_roundtrip_content_len_244_both_t() {
+    roundtrip_content_len::<244, true, true>();
+}
+
+#[kani::proof]
+#[kani::unwind(140)]
+fn c09_roundtrip_content_len_100_dsap() {
+    roundtrip_content_len::<100, true, false>();
+}
+
 /// Structural sweep without payload content: every length selects the right start delimiter.
 #[kani::proof]
 #[kani::unwind(4)]
